@@ -1,4 +1,6 @@
 import TSSVerif.Proofs.Dispatch
+import TSSVerif.Gen.Stmts
+import TSSVerif.Model.StmtsExpected
 /-!
 # C03 — reliable broadcast integrity: authentic, members only, at most once, non-empty
 
@@ -115,5 +117,12 @@ def exIns : List (Id × Bytes) :=
 
 example : (run exCfg (fresh 1 3) exIns).2 =
     [ .ack ⟨[1#8, 0xEE#8], 0, 1⟩, .deliverB [1#8, 1#8, 7#8] ⟨[1#8, 0xEE#8], 0, 1⟩ ] := by decide
+
+
+/-- **The source the model was transcribed from is the current source**: the statements of `Receiver.Receive`, `registerMsg`, `initIfNeeded` and the dispatch path `handleMPC` / `handleRBC` / `handleAck` / `rbcFilter.Receive` / `threadSafeRBC.Receive`, regenerated from
+`/repo` on this run, are the committed ones (logging left out). A change of any of them — harmless or not — fails here
+first; the differential and monitored runs of this property are then the search for an input on which it fails. -/
+theorem source_as_modelled : TSSVerif.Gen.Stmts.rbc = TSSVerif.Model.StmtsExpected.rbc := by
+  decide +kernel
 
 end TSSVerif.Props.C03
